@@ -15,7 +15,41 @@ PROPERTIES = ["C14", "C13"]
 SPEC = "StackStash"
 CHUNK = 120000          # trace lines per TLC trace-validation run
 
-_MISMATCH = re.compile(r'<<"MISMATCH", (\d+), "([\w-]+)", (.*?), (.*?)>>\n')
+
+
+def mismatches(out):
+    """[(line, kind, expected, observed)] from the monitor's PrintT output (robust against TLC wrapping long tuples)."""
+    tups = vlib.tuples(out, "MISMATCH")
+    if len(tups) != out.count('"MISMATCH"'):
+        raise vlib.Infra("cannot parse every MISMATCH tuple of the monitor (%d parsed, %d printed)" % (len(tups), out.count('"MISMATCH"')))
+    res = []
+    for t in tups:
+        if len(t) != 4 or not isinstance(t[0], int):
+            raise vlib.Infra("malformed MISMATCH tuple: %r" % (t,))
+        res.append((t[0], str(t[1]), t[2], t[3]))
+    return res
+
+
+
+def par(jobs, width=3):
+    """Run {name: thunk} in at most `width` threads; returns {name: result}; re-raises the first exception."""
+    res, errs = {}, []
+    sem = threading.Semaphore(width)
+
+    def work(name, thunk):
+        with sem:
+            try:
+                res[name] = thunk()
+            except BaseException as ex:     # noqa - re-raised below
+                errs.append(ex)
+    ths = [threading.Thread(target=work, args=(n, t)) for n, t in jobs.items()]
+    for t in ths:
+        t.start()
+    for t in ths:
+        t.join()
+    if errs:
+        raise errs[0]
+    return res
 
 
 def gen_behaviours(ctx, module, cfg, simulate=None, depth=None, timeout=900):
@@ -65,8 +99,8 @@ def judge(ctx, rows, monitor, monitor_cfg, conf, conf_cfg, name):
                 th.join()
         if mon.depth != len(part) + 1:
             raise vlib.Infra("monitor %s did not consume the whole trace (%d of %d)" % (monitor, mon.depth - 1, len(part)))
-        for m in _MISMATCH.finditer(mon.out):
-            mism.append((off + int(m.group(1)), m.group(2), m.group(3), m.group(4)))
+        for line, kind, exp, got in mismatches(mon.out):
+            mism.append((off + line, kind, exp, got))
         if "err" in box:
             raise box["err"]
         c = box.get("c")
@@ -118,19 +152,21 @@ SWITCH = ("Become", "BecomeStacked", "UnBecomeStacked", "UnBecome")
 
 def run_stack(ctx, pid):
     quick = ctx.quick
-    mc = ctx.tlc_must_hold(SPEC, "MC_BehaviorStack.cfg" if quick else "MC_BehaviorStack_t.cfg", module="MC_BehaviorStack",
-                           timeout=1500)
-    ctx.log("design: %d distinct states; the transcription (repaired) refines the documented stack" % mc.distinct)
-    # the Defects branch must really be the deviation the finding describes: TLC has to refute the property with it
-    d = ctx.tlc(SPEC, "MC_BehaviorStack_defect.cfg", module="MC_BehaviorStack", timeout=600, expect_fail=True)
-    if d.violated != "HandlerIsIdealTop":
+    g = par({
+        "mc": lambda: ctx.tlc_must_hold(SPEC, "MC_BehaviorStack.cfg" if quick else "MC_BehaviorStack_t.cfg", module="MC_BehaviorStack",
+                                        timeout=1500),
+        # the Defects branch must really be the deviation the finding describes: TLC has to refute the property with it
+        "defect": lambda: ctx.tlc(SPEC, "MC_BehaviorStack_defect.cfg", module="MC_BehaviorStack", timeout=600, expect_fail=True),
+        "exh": lambda: gen_behaviours(ctx, "Gen_BehaviorStack", "Gen_BehaviorStack.cfg" if quick else "Gen_BehaviorStack_t.cfg"),
+        "sim": lambda: gen_behaviours(ctx, "Gen_BehaviorStack", "Sim_BehaviorStack.cfg", simulate="num=%d" % (150 if quick else 1200)),
+        # histories with PID.Restart (each restart costs >= 10 ms of real time: bounded separately)
+        "rst": lambda: gen_behaviours(ctx, "Gen_BehaviorStack", "GenR_BehaviorStack.cfg" if quick else "GenR_BehaviorStack_t.cfg"),
+    })
+    ctx.log("design: %d distinct states; the transcription (repaired) refines the documented stack" % g["mc"].distinct)
+    if g["defect"].violated != "HandlerIsIdealTop":
         raise vlib.Infra("Defects={UnBecomePushes} no longer violates HandlerIsIdealTop (stale Defects branch?)")
-
-    exh = gen_behaviours(ctx, "Gen_BehaviorStack", "Gen_BehaviorStack.cfg" if quick else "Gen_BehaviorStack_t.cfg")
-    sim = gen_behaviours(ctx, "Gen_BehaviorStack", "Sim_BehaviorStack.cfg", simulate="num=%d" % (150 if quick else 3000))
-    # histories with PID.Restart (each restart costs >= 10 ms of real time: bounded separately)
-    rst = [b for b in gen_behaviours(ctx, "Gen_BehaviorStack", "GenR_BehaviorStack.cfg" if quick else "GenR_BehaviorStack_t.cfg")
-           if any(o["op"] == "Restart" for o in b)]
+    exh, sim = g["exh"], g["sim"]
+    rst = [b for b in g["rst"] if any(o["op"] == "Restart" for o in b)]
     if len(exh) < 1000 or len(sim) < 100 or len(rst) < 100:
         raise vlib.Infra("behaviour generation produced too little (%d exhaustive, %d random, %d with restart)" % (len(exh), len(sim), len(rst)))
     behaviours = exh + rst + sim
@@ -176,7 +212,7 @@ def run_stack(ctx, pid):
             f = ctx.tmp("classify.ndjson")
             vlib.write_ndjson(f, part)
             m2 = ctx.tlc(SPEC, "Trace_StackAbs_found.cfg", module="Trace_StackAbs", dfs=True, files={"trace.ndjson": f}, timeout=300)
-            explained = m2.depth == len(part) + 1 and not _MISMATCH.search(m2.out)
+            explained = m2.depth == len(part) + 1 and not mismatches(m2.out)
         except vlib.Infra:
             pass
         snippet = ctx.tmp("violation.ndjson")
@@ -218,7 +254,7 @@ def all_explained(ctx, rows, starts):
     f = ctx.tmp("classify-all.ndjson")
     vlib.write_ndjson(f, parts)
     m = ctx.tlc(SPEC, "Trace_StackAbs_found.cfg", module="Trace_StackAbs", dfs=True, files={"trace.ndjson": f}, timeout=1200)
-    return m.depth == len(parts) + 1 and not _MISMATCH.search(m.out)
+    return m.depth == len(parts) + 1 and not mismatches(m.out)
 
 
 # ------------------------------------------------------------------------------------------ C13
@@ -227,61 +263,98 @@ STASHOPS = ("Stash", "Unstash", "UnstashAll")
 
 def run_stash(ctx, pid):
     quick = ctx.quick
-    mc = ctx.tlc_must_hold(SPEC, "MC_Stash.cfg" if quick else "MC_Stash_t.cfg", module="MC_Stash", timeout=1700,
-                           deadlock_check=False)
-    ctx.log("design: %d distinct states; no loss / duplication / reordering in the transcription" % mc.distinct)
-
-    exh = gen_behaviours(ctx, "Gen_Stash", "Gen_Stash.cfg" if quick else "Gen_Stash_t.cfg")
-    sim = gen_behaviours(ctx, "Gen_Stash", "Sim_Stash.cfg", simulate="num=%d" % (600 if quick else 6000))
-    if len(exh) < 1000 or len(sim) < 100:
-        raise vlib.Infra("behaviour generation produced too little (%d exhaustive, %d random)" % (len(exh), len(sim)))
-    behaviours = exh + sim
-    ctx.log("behaviours: %d exhaustive + %d random" % (len(exh), len(sim)))
-
+    g = par({
+        "mcA": lambda: ctx.tlc_must_hold(SPEC, "MC_Stash.cfg" if quick else "MC_Stash_t.cfg", module="MC_Stash", timeout=1700,
+                                         deadlock_check=False),
+        "exhA": lambda: gen_behaviours(ctx, "Gen_Stash", "Gen_Stash.cfg" if quick else "Gen_Stash_t.cfg"),
+        "simA": lambda: gen_behaviours(ctx, "Gen_Stash", "Sim_Stash.cfg", simulate="num=%d" % (150 if quick else 3000)),
+        "mcB": lambda: ctx.tlc_must_hold(SPEC, "MC_ReStash.cfg" if quick else "MC_ReStash_t.cfg", module="MC_ReStash", timeout=1700,
+                                         deadlock_check=False),
+        "exhB": lambda: gen_behaviours(ctx, "Gen_ReStash", "Gen_ReStash.cfg" if quick else "Gen_ReStash_t.cfg"),
+        "simB": lambda: gen_behaviours(ctx, "Gen_ReStash", "Sim_ReStash.cfg", simulate="num=%d" % (150 if quick else 3000)),
+    })
+    # ---- A: explicit Stash / Unstash / UnstashAll;  B: the stash driven by reentrancy mode StashNonReentrant
+    ctx.log("design A (Stash/Unstash/UnstashAll): %d distinct states; no loss / duplication / reordering" % g["mcA"].distinct)
+    ctx.log("design B (StashNonReentrant, dispatchOne / deregisterRequestState): %d distinct states; no loss / duplication, stash order, "
+            "exclusion" % g["mcB"].distinct)
+    exh, sim, exh2, sim2 = g["exhA"], g["simA"], g["exhB"], g["simB"]
+    if min(len(exh), len(exh2)) < 1000 or min(len(sim), len(sim2)) < 100:
+        raise vlib.Infra("behaviour generation produced too little (%d/%d exhaustive, %d/%d random)" % (len(exh), len(exh2), len(sim), len(sim2)))
+    behaviours, beh2 = exh + sim, exh2 + sim2
+    ctx.log("behaviours: A %d exhaustive + %d random; B %d exhaustive + %d random" % (len(exh), len(sim), len(exh2), len(sim2)))
     rows, stats, trace = replay(ctx, "stash", behaviours)
-    ctx.log("replayed on the real actor system: %d events in %d ms" % (stats["events"], stats["wall_ms"]))
+    ctx.log("A replayed on the real actor system: %d events in %d ms" % (stats["events"], stats["wall_ms"]))
     if stats["behaviours"] != len(behaviours):
         ctx.log("driver stopped after %d behaviours (%d anomalies)" % (stats["behaviours"], stats["anomalies"]))
-    mism, drift = judge(ctx, rows, "Trace_StashAbs", "Trace_StashAbs.cfg", "Trace_Stash", "Trace_Stash.cfg", "stash")
+    rows2, stats2, _ = replay(ctx, "restash", beh2)
+    ctx.log("B replayed on the real actor system: %d events in %d ms" % (stats2["events"], stats2["wall_ms"]))
+    j = par({
+        "A": lambda: judge(ctx, rows, "Trace_StashAbs", "Trace_StashAbs.cfg", "Trace_Stash", "Trace_Stash.cfg", "stash"),
+        "B": lambda: judge(ctx, rows2, "Trace_ReStashAbs", "Trace_ReStashAbs.cfg", "Trace_ReStash", "Trace_ReStash.cfg", "restash"),
+    })
+    (mism, drift), (mism2, drift2) = j["A"], j["B"]
 
     def nontrivial(b):
         ops = [o["op"] for o in b]
         return b[0].get("buffer") and "Stash" in ops and ("Unstash" in ops or "UnstashAll" in ops)
-    distinct = {json.dumps(ops_of(b)) for b in behaviours if nontrivial(b)}
-    redelivered = sum(1 for r in rows if r["op"] in ("Unstash", "UnstashAll") and r.get("err") == "" )
+
+    def nontrivial2(b):
+        # a message is sent while a request is open and that request is answered later
+        ops = [o["op"] for o in b]
+        if "Request" not in ops or "Respond" not in ops:
+            return False
+        i = ops.index("Request")
+        return "Send" in ops[i:] and "Respond" in ops[i:]
+    distinct = {json.dumps(ops_of(b)) for b in behaviours if nontrivial(b)} | {"B" + json.dumps(ops_of(b)) for b in beh2 if nontrivial2(b)}
+    released = sum(1 for r in rows if r["op"] in ("Unstash", "UnstashAll") and r.get("err") == "")
+    nb = stats["behaviours"] + stats2["behaviours"]
     cov = {
         "states": ctx.states()[0], "transitions": ctx.states()[1],
-        "traces_validated_against_impl": stats["behaviours"],
-        "samples": [ops_of(behaviours[0]), ops_of(behaviours[len(exh) // 2]), ops_of(behaviours[-1])],
-        "evaluations": stats["behaviours"], "distinct_nontrivial": len(distinct),
-        "rule": "every step history of length D over {Send, Deliver, Stash, Unstash, UnstashAll} allowed by Stash.tla, with and without "
+        "traces_validated_against_impl": nb,
+        "samples": [ops_of(behaviours[0]), ops_of(behaviours[len(exh) // 2]), ops_of(behaviours[-1])] +
+                   ([ops_of(beh2[len(exh2) // 2]), ops_of(beh2[-1])] if beh2 else []),
+        "evaluations": nb, "distinct_nontrivial": len(distinct),
+        "rule": "A: every step history of length D over {Send, Deliver, Stash, Unstash, UnstashAll} allowed by Stash.tla, with and without "
                 "a stash buffer (TLC BFS), plus TLC random walks; each executed on a fresh real actor (messages sent by Tell, Ask and "
                 "Tell-from-an-actor in turn) and followed by an epilogue that drains the mailbox, releases the whole stash and drains again; "
-                "non-trivial = actor has a stash buffer and the history contains a Stash and an Unstash/UnstashAll; distinct = distinct step sequences",
-        "exhaustive": True, "exhaustive_histories": len(exh), "random_walks": len(sim), "events_validated": len(rows),
-        "successful_release_calls": redelivered, "ask_anomalies": stats["anomalies"],
-        "monitor_mismatches": len(mism), "conformance_drift": drift,
+                "non-trivial = actor has a stash buffer and the history contains a Stash and an Unstash/UnstashAll. "
+                "B: every step history of length D over {Send, Request(StashNonReentrant), Respond(rq), Finish} allowed by ReStash.tla plus random "
+                "walks, executed on a fresh real actor with one real responder actor per request, epilogue answers all requests and lets all "
+                "handlers return; non-trivial = a message is sent while a request is open and the request is answered. distinct = distinct step sequences",
+        "exhaustive": True, "exhaustive_histories": len(exh) + len(exh2), "random_walks": len(sim) + len(sim2),
+        "events_validated": len(rows) + len(rows2),
+        "A_behaviours": stats["behaviours"], "B_behaviours": stats2["behaviours"],
+        "successful_release_calls": released,
+        "requests_completed": sum(1 for r in rows2 if r["op"] == "Respond"),
+        "ask_anomalies": stats["anomalies"] + stats2["anomalies"],
+        "monitor_mismatches": len(mism) + len(mism2), "conformance_drift": drift or drift2,
     }
     assumptions = [
         "one sender thread (the driver); Unstash/UnstashAll run inside the handler, so no foreign enqueue interleaves with the "
         "re-enqueue loop of unstashAll; default UnboundedMailbox as main mailbox",
+        "a message is stashed at most once per delivery (a handler that calls Stash twice duplicates the message by construction)",
+        "released messages re-enter at the mailbox TAIL (what the code does; the property speaks about stash order only): messages already "
+        "waiting in the mailbox are handled before the released ones, see docs/stackstash.md",
         "the recorded error of a call is read from the ReceiveContext through the verif-tag shim VerifContextErr; the supervisor of the "
         "puppet actor resumes on any error so that the actor keeps running after ErrStashBufferNotSet",
         "exhaustive only up to the stated history length and message count",
     ]
-    if mism:
-        line, kind, exp, got = mism[0]
-        snippet = ctx.tmp("violation.ndjson")
-        part, idx = cut_behaviour(rows, line)
-        vlib.write_ndjson(snippet, part)
-        rp = ctx.save_replay("seed%d" % ctx.seed, snippet, text="\n".join(map(str, mism[:200])))
-        ctx.evidence("model_checking", cov, assumptions, violations=len(mism))
-        raise vlib.Violation(pid, rp, "monitor: %s: the stash contract says %s, the real actor showed %s (trace line %d = step %d of the "
-                             "saved behaviour; %d mismatches in %d behaviours)" % (kind, exp, got, line, idx + 1, len(mism), stats["behaviours"]))
-    if stats.get("hung"):
-        raise vlib.Infra("driver watchdog: %s (no monitor mismatch in the part recorded before)" % stats["hung"])
-    if drift:
-        ctx.log("conformance drift (not a verdict): " + drift)
+    for mm, rr, st, what in ((mism, rows, stats, "stash"), (mism2, rows2, stats2, "reentrancy stash")):
+        if mm:
+            line, kind, exp, got = mm[0]
+            snippet = ctx.tmp("violation.ndjson")
+            part, idx = cut_behaviour(rr, line)
+            vlib.write_ndjson(snippet, part)
+            rp = ctx.save_replay("seed%d" % ctx.seed, snippet, text="\n".join(map(str, mm[:200])))
+            ctx.evidence("model_checking", cov, assumptions, violations=len(mm))
+            raise vlib.Violation(pid, rp, "monitor (%s): %s: the contract says %s, the real actor showed %s (trace line %d = step %d of the "
+                                 "saved behaviour; %d mismatches in %d behaviours)" % (what, kind, exp, got, line, idx + 1, len(mm), st["behaviours"]))
+    for st in (stats, stats2):
+        if st.get("hung"):
+            raise vlib.Infra("driver watchdog: %s (no monitor mismatch in the part recorded before)" % st["hung"])
+    for d in (drift, drift2):
+        if d:
+            ctx.log("conformance drift (not a verdict): " + d)
     ctx.evidence("model_checking", cov, assumptions)
 
 
